@@ -957,3 +957,254 @@ def rule_wrap_pairs(repo, rep):
     rep.unknown(R, 'constraints.wrap_pairs', site(f), unk)
   else:
     rep.derived(R, 'constraints.wrap_pairs', site(f))
+
+
+# ------------------------------------------------------------------ _pairs
+class _PMask:
+  """candidate mask of one draw: same / different label as the drawn point"""
+
+  def __init__(self, kind, pt):
+    self.kind, self.pt, self.cleared, self.spoiled = kind, pt, False, False
+
+  def __repr__(self):
+    return '<mask %s %s%s>' % (self.kind, self.pt,
+                               ' self-cleared' if self.cleared else '')
+
+
+class _PairsWorld(World):
+  def __init__(self, counts):
+    self.counts = list(counts)
+    self.N = sum(counts)
+    self.ndraw = 0
+    self.warned = 0
+    self.notes = []
+
+  def attr(self, it, v, attr, node):
+    if v == S('self') and attr == 'partial_labels':
+      return S('pl')
+    if tg(v) == 'pairsarr' and attr == 'T':
+      return S('pairsT', v[1])
+    if v in (S('klabels'), S('kidx')) and attr == 'shape':
+      return (self.N,)
+    return NotImplemented
+
+  def compare(self, it, op, a, b, node):
+    if a == S('pl') and isinstance(b, int):
+      if (isinstance(op, ast.GtE) and b == 0) or \
+              (isinstance(op, ast.Gt) and b == -1):
+        return S('kmask')
+    for x, y in ((a, b), (b, a)):
+      if tg(x) == 'labelof' and y == S('klabels') and \
+              isinstance(op, (ast.Eq, ast.NotEq)):
+        return _PMask('eq' if isinstance(op, ast.Eq) else 'ne', x[1])
+    return NotImplemented
+
+  def unary(self, it, op, v, node):
+    if isinstance(op, ast.Invert) and isinstance(v, _PMask):
+      m = _PMask('ne' if v.kind == 'eq' else 'eq', v.pt)
+      m.spoiled = v.cleared      # ~ of a mask with the self position cleared
+      return m
+    return NotImplemented
+
+  def subscript(self, it, base, idx, node):
+    i1 = _unwrap(idx)
+    if base == S('pl') and i1 in (S('kmask'), S('kidx')):
+      return S('klabels')
+    if base == S('klabels') and tg(i1) == 'pt':
+      return S('labelof', i1)
+    if base == S('kidx') and tg(i1) == 'pairsT':
+      return S('result', i1[1])
+    return NotImplemented
+
+  def store(self, it, base, idx, value, node):
+    if isinstance(base, _PMask) and tg(idx) == 'pt' and value is False:
+      if idx == base.pt:
+        base.cleared = True
+      else:
+        base.spoiled = True
+      return None
+    return NotImplemented
+
+  def size(self, m):
+    c = self.counts[m.pt[2]]
+    if m.kind == 'eq':
+      return c - (1 if m.cleared else 0)
+    return self.N - c
+
+  def call(self, it, d, recv, args, kwargs, node):
+    if d == 'len' and len(args) == 1:
+      v = args[0]
+      if v in (S('klabels'), S('kidx')):
+        return self.N
+      if tg(v) == 'cands':
+        return v[4]
+      return NotImplemented
+    if d.startswith('.'):
+      m = d[1:]
+      if recv == S('rng'):
+        if m == 'randint':
+          hi = args[0] if args else kwargs.get('high')
+          size = kwargs.get('size', args[2] if len(args) > 2 else None)
+          if len(args) > 1 and args[1] is not None:
+            raise Undecided('randint(low, high)')
+          if hi != self.N:
+            self.notes.append('points drawn among %r positions, there are '
+                              '%d labelled points' % (hi, self.N))
+            raise Undecided('randint range %r' % (hi,))
+          if size is None:
+            size = 1
+            scalar = True
+          else:
+            scalar = False
+          if not isinstance(size, int):
+            raise Undecided('randint size')
+          if size < 0:
+            raise Raised(['ValueError'], node)
+          out = []
+          for _ in range(size):
+            cls = it.choose(len(self.counts))
+            self.ndraw += 1
+            out.append(S('pt', self.ndraw, cls))
+          return out[0] if scalar else out
+        if m == 'choice' and len(args) == 1 and tg(args[0]) == 'cands':
+          if args[0][4] <= 0:
+            self.notes.append('choice among no candidates')
+            raise Raised(['ValueError'], node)
+          return S('partner', args[0][1], args[0][2], args[0][3])
+        raise Undecided('rng.%s' % m)
+      if isinstance(recv, set) and m == 'add' and len(args) == 1:
+        # the drawn pair may repeat one that is already there
+        if recv and it.choose(2) == 1:
+          return None
+        recv.add(args[0])
+        return None
+      if isinstance(recv, _PMask) and m == 'copy':
+        return recv
+      return NotImplemented
+    short = _short(d)
+    if d.startswith('numpy.'):
+      if short in ('where', 'nonzero', 'flatnonzero') and len(args) == 1:
+        v = args[0]
+        if v == S('kmask'):
+          return S('kidx') if short == 'flatnonzero' else (S('kidx'),)
+        if isinstance(v, _PMask):
+          if v.spoiled:
+            raise Undecided('mask edited at another position')
+          c = S('cands', v.kind, v.pt, v.cleared, self.size(v))
+          return c if short == 'flatnonzero' else (c,)
+      if short in ('array', 'asarray') and len(args) == 1 and \
+              isinstance(args[0], list):
+        return S('pairsarr', tuple(args[0]))
+    if short == 'check_random_state':
+      return S('rng')
+    return NotImplemented
+
+  def name(self, it, ident):
+    return NotImplemented
+
+  def warn(self, it, node):
+    self.warned += 1
+
+
+def rule_pairs_interp(repo, rep):
+  R = 'R-INTERP:pairs'
+  rep.rule(R, 'Constraints._pairs interpreted on class layouts [2, 1] and '
+           '[3, 2] (singleton class, unlabelled points), n_constraints in '
+           '{1, 2}, max_iter in {1, 2}, both values of same_label, over every '
+           'outcome of the draws (class of the drawn point, repetition of an '
+           'earlier pair): never raises; every returned pair joins the drawn '
+           'point with a candidate of its own draw - same label and not '
+           'itself, resp. different label; at most n_constraints pairs, no '
+           'pair twice; a warning exactly when fewer are returned; positions '
+           'mapped to the caller\'s frame')
+  cons = repo.get_class('Constraints')
+  f = cons.methods.get('_pairs')
+  if f is None:
+    rep.unknown(R, 'Constraints._pairs', '', 'method vanished')
+    return
+  rep.analysed(f)
+  ps = f.params()
+  verdict = {}
+
+  def fail(clause, kind, detail, node=None):
+    cur = verdict.get(clause)
+    if cur is None or (cur[0] == 'unknown' and kind == 'refuted'):
+      verdict[clause] = (kind, detail, node)
+  clauses = ('no-raise', 'relation', 'limit', 'warning', 'caller-frame')
+  nrun = ncombo = 0
+  for counts in ([2, 1], [3, 2]):
+    for same in (True, False):
+      for n in (1, 2):
+        for mi in (1, 2):
+          ncombo += 1
+          tag = 'class sizes %s, same_label=%s, n_constraints=%d, ' \
+              'max_iter=%d' % (counts, same, n, mi)
+          env0 = {'self': S('self'), 'n_constraints': n, 'same_label': same,
+                  'max_iter': mi, 'random_state': S('rng')}
+          env0 = dict((k, v) for k, v in env0.items() if k in ps)
+          try:
+            for w, out, it in runs(repo, f, lambda: _PairsWorld(counts),
+                                   lambda w: dict(env0), limit=3000):
+              nrun += 1
+              if out[0] == 'raise':
+                fail('no-raise', 'refuted', 'raises %s (%s)%s' % (
+                    out[1][0], tag, ': ' + w.notes[-1] if w.notes else ''),
+                    out[2])
+                continue
+              res = out[1]
+              if tg(res) != 'result':
+                if tg(res) == 'pairsT':
+                  fail('caller-frame', 'refuted', 'returns positions among '
+                       'the labelled points, not indices of the caller\'s '
+                       'array (%s)' % tag)
+                  res = S('result', res[1])
+                else:
+                  fail('caller-frame', 'unknown', 'returns %r (%s)'
+                       % (res, tag))
+                  continue
+              pairs = res[1]
+              if len(pairs) > n:
+                fail('limit', 'refuted', '%d pairs returned for '
+                     'n_constraints=%d (%s)' % (len(pairs), n, tag))
+              if len(set(pairs)) != len(pairs):
+                fail('limit', 'refuted', 'a pair is returned twice (%s)'
+                     % tag)
+              for p_ in pairs:
+                if not (isinstance(p_, tuple) and len(p_) == 2 and
+                        tg(p_[0]) == 'pt' and tg(p_[1]) == 'partner'):
+                  fail('relation', 'unknown', 'pair %r (%s)' % (p_, tag))
+                  continue
+                a, b = p_
+                if b[2] != a:
+                  fail('relation', 'refuted', 'a point is paired with a '
+                       'candidate computed for another draw (%s)' % tag)
+                elif same and (b[1] != 'eq' or not b[3]):
+                  fail('relation', 'refuted', 'under same_label=True the '
+                       'partner is drawn among the points with %s (%s)' % (
+                           'a different label' if b[1] != 'eq' else
+                           'the same label including the point itself',
+                           tag))
+                elif not same and b[1] != 'ne':
+                  fail('relation', 'refuted', 'under same_label=False the '
+                       'partner is drawn among the points with the same '
+                       'label (%s)' % tag)
+              if (len(pairs) < n) != (w.warned > 0):
+                fail('warning', 'refuted', '%d of %d requested pairs '
+                     'returned %s a warning (%s)' % (
+                         len(pairs), n, 'without' if not w.warned
+                         else 'with', tag))
+          except Undecided as u:
+            for c in clauses:
+              fail(c, 'unknown', '%s (%s)' % (u, tag))
+  for c in clauses:
+    key = 'Constraints._pairs:%s' % c
+    v = verdict.get(c)
+    if v is None:
+      rep.derived(R, key, site(f), sample=dict(rule=R, clause=c, runs=nrun))
+    elif v[0] == 'refuted':
+      rep.refuted(R, key, site(f, v[2]) if v[2] is not None else site(f),
+                  v[1])
+    else:
+      rep.unknown(R, key, site(f, v[2]) if v[2] is not None else site(f),
+                  v[1])
+  rep.floor('_pairs layout x request combinations interpreted', ncombo, 16)
